@@ -520,6 +520,10 @@ pub(crate) trait ThriftCompactInputProtocol<'a> {
             // see https://github.com/apache/thrift/blob/master/doc/specs/thrift-compact-protocol.md#list-and-set
             FieldType::List | FieldType::Set => {
                 let list_ident = self.read_list_begin()?;
+                if list_ident.element_type == ElementType::Bool {
+                    // unlike a struct field, a boolean element occupies one byte
+                    return self.skip_bytes(list_ident.size as usize);
+                }
                 let element_type = FieldType::from(list_ident.element_type);
                 for _ in 0..list_ident.size {
                     self.skip_till_depth(element_type, depth - 1)?;
